@@ -109,6 +109,10 @@ fn expect(shape: &Shape, val: &Val) -> Expect {
             (Leaf::I32, Val::I32(x)) => Expect::Text(cmodel::decimal(*x as i128)),
             (Leaf::I64, Val::I64(x)) => Expect::Text(cmodel::decimal(*x as i128)),
             (Leaf::F64, Val::F64(x)) => Expect::Double(*x),
+            // integer widths outside the Conjure model that hand-written error types may carry:
+            // "integers in decimal text"
+            (Leaf::I8 | Leaf::I16 | Leaf::RawI64, Val::I64(x)) => Expect::Text(cmodel::decimal(*x as i128)),
+            (Leaf::U8 | Leaf::U16 | Leaf::U32 | Leaf::U64, Val::U64(x)) => Expect::Text(cmodel::decimal(*x as i128)),
             (Leaf::Bytes, _) => Expect::Omitted,
             _ => Expect::NotJudged,
         },
@@ -389,6 +393,19 @@ pub fn run(args: &Args) -> Report {
         })
         .reduce(new, merge);
     report.merge(p1);
+    // the same for the other integer widths (scalar and optional)
+    let mut px = new();
+    for l in [Leaf::I8, Leaf::I16, Leaf::RawI64, Leaf::U8, Leaf::U16, Leaf::U32, Leaf::U64] {
+        for shape in [Shape::Leaf(l), Shape::opt(Shape::Leaf(l))] {
+            for (j, val) in space::values(&shape, 1).into_iter().enumerate() {
+                for safe in [true, false] {
+                    let e = DynError { code: cs[j % cs.len()].clone(), name: "Verif:OneParam", fields: vec![Field { name: "fooBar", shape: shape.clone(), val: val.clone(), safe, skip_if_empty: false }] };
+                    check_error(&e, &mut px, true);
+                }
+            }
+        }
+    }
+    report.merge(px);
 
     // ---- part 2: every error definition over 6 names x {not defined, safe, unsafe} x
     //      {scalar, omitted (list), omitted (absent optional)} with <= 3 safe and <= 3 unsafe
